@@ -898,12 +898,32 @@ def scan_classes():
             if a in vis or all(const.match(r) for r in rhs):
                 continue
             out.append(("%s.%s" % (c.__module__.split(".", 1)[-1], c.__name__), a))
-    return out, len(classes)
+    # Node classes that have no replace_table anywhere on their MRO: as a child of a visited slot they make the parent raise
+    nomethod = sorted("%s.%s" % (c.__module__.split(".", 1)[-1], c.__name__) for c in classes
+                      if not any("replace_table" in k.__dict__ for k in c.__mro__))
+    return out, len(classes), nomethod
+
+
+# Node classes without any replace_table, reviewed: they never sit where a parent CALLS the method
+REVIEWED_NO_METHOD = {
+    "terms.Node": "abstract root",
+    "queries.Selectable": "abstract base of Table / AliasedQuery",
+    "queries.Table": "FROM entries, join items, Field.table, INSERT/UPDATE targets are compared with ==; only Terms are entered",
+    "queries.AliasedQuery": "WITH entries are rebuilt from .query; as FROM / join item it is compared, not entered",
+}
+# ... and those that CAN be the child of a visited slot (open findings)
+KNOWN_NO_METHOD = {
+    "terms.Interval": "C15-interval-no-method",
+}
 
 
 def check_all_classes():
     """fail closed on an attribute nobody has looked at; returns the notes for the generated file"""
-    cands, n = scan_classes()
+    cands, n, nomethod = scan_classes()
+    unknown_m = [c for c in nomethod if c not in REVIEWED_NO_METHOD and c not in KNOWN_NO_METHOD]
+    if unknown_m:
+        raise ExtractError("Node classes without a replace_table method that were never reviewed (as an operand / argument of a "
+                           "visited slot they make replace_table raise AttributeError): %s" % unknown_m)
     unknown = [c for c in cands if c not in REVIEWED_NO_TABLE and c not in KNOWN_UNVISITED]
     if unknown:
         raise ExtractError("attributes assigned by Node/Join classes that no replace_table touches and that were never reviewed: %s"
@@ -913,4 +933,6 @@ def check_all_classes():
              "the effective replace_table; %d of them reviewed as unable to hold a table, %d still open:"
              % (n, len(cands), len(cands) - len(still), len(still))]
     notes += ["  open: %s.%s (%s)" % (c[0], c[1], KNOWN_UNVISITED[c]) for c in still]
+    notes += ["Node classes without a replace_table method: %s" % ", ".join(
+        "%s (%s)" % (c, "reviewed" if c in REVIEWED_NO_METHOD else "OPEN " + KNOWN_NO_METHOD[c]) for c in nomethod)]
     return notes
